@@ -625,6 +625,18 @@ def run(ctx):
                 reaches = True
         ctx.check(reaches, "R6.5", f"{qn.split('flow.record.')[1]}:descriptor-construction",
                   "does not construct descriptors through RecordDescriptor", fn, "constructs descriptors through RecordDescriptor (validated)")
+    # ... and the binary decoder's descriptor branch returns nothing else (a descriptor frame is untrusted input: re-using a registered
+    # descriptor because a 32-bit hash over unseparated text matches skips validation)
+    from .packer_common import unpack_branches
+
+    uo6 = prog.func("flow.record.packer.RecordPacker.unpack_obj")
+    _, ubs6 = unpack_branches(prog, uo6)
+    for u6 in [u for u in ubs6 if u.role == "descriptor"]:
+        for rt6 in [n for s0 in u6.if_node.body for n in ast.walk(s0) if isinstance(n, ast.Return) and n.value is not None]:
+            r6 = prog.resolve_expr(uo6._module, rt6.value.func) if isinstance(rt6.value, ast.Call) else None
+            ctx.check(isinstance(r6, DefRef) and r6.qualname in ("flow.record.base.RecordDescriptor", "flow.record.base.RecordDescriptor._unpack"), "R6.5",
+                      f"packer.RecordPacker.unpack_obj:descriptor-branch:return {norm(rt6.value)[:40]}", f"a descriptor frame can be answered with `{norm(rt6.value)}` instead of a freshly "
+                      "validated RecordDescriptor", rt6, "returns RecordDescriptor._unpack(name, fields)", key="R6.5:unpack_obj:descriptor-branch:unvalidated-return")
 
 
 def _target_names(t):
